@@ -107,6 +107,8 @@ def scenario(kind, masked, limit, how, location, cstep_h, npub):
     kw = {}
     if how == "composition":
         kw = dict(slot_memory_limit=limit, slot_memory_location=location)
+    elif how == "slot_limit_composition_location":
+        kw = dict(slot_memory_location=location)
     comp = hlib.make_composition([prod, cons], **kw)
     mk = make_adapter(kind)
     ada = mk() if mk else None
@@ -114,10 +116,11 @@ def scenario(kind, masked, limit, how, location, cstep_h, npub):
         prod.outputs["Out"] >> ada >> cons.inputs["In"]
     else:
         prod.outputs["Out"] >> cons.inputs["In"]
-    if how == "slot":
+    if how in ("slot", "slot_limit_composition_location"):
         slot = ada if ada is not None else prod.outputs["Out"]
         slot.memory_limit = limit
-        slot.memory_location = location
+        if how == "slot":
+            slot.memory_location = location
     saved = []
     orig_save = np.save
     orig_dump = np.ma.MaskedArray.dump
@@ -152,7 +155,7 @@ def h_spill(ctx):
     cstep_h, npub = p.get("cstep_h", 36), p.get("npub", 5)
     hlib.reset_finam_state()
     limit = ctx.int("limit", lo=-1, hi=NBYTES * (npub + 2))
-    how = "composition" if ctx.flag("composition_wide") else "slot"
+    how = ["composition", "slot", "slot_limit_composition_location"][ctx.choice("how", 3)]
     ref, _s, _l, ref_exc = scenario(kind, masked, None, "slot", None, cstep_h, npub)
     if ref_exc is not None:
         raise symx.HarnessError(f"reference run without limit failed: {ref_exc!r}")
